@@ -256,6 +256,11 @@ func (w *world) tamperHead(p string) bool {
 		return false
 	}
 	h := w.net[p][0]
+	if h.grp != nil && len(h.grp.frags) == 1 && h.grp.kind() == "commit" {
+		// a malformed D-H commit: the message cut down to its header (processDHCommit fails on the first field)
+		w.net[p][0].b = encodeOTR([]byte{0, 2, 2})
+		return true
+	}
 	text := append([]byte(nil), h.grp.whole()...)
 	d := decodeOTR(text)
 	yStart, _, _, macEnd, ok := dataLayout(d)
